@@ -362,6 +362,7 @@ class Env:
         self.objs = objs or {}  # parameter decl -> storage of the object it refers to (read-only)
         self.ret = None
         self.done = C0  # condition under which the function has already returned
+        self.arrays = {}  # local constant arrays: decl -> list of BV
 
     @property
     def returned(self):
@@ -372,6 +373,7 @@ class Env:
         e.vars = dict(self.vars)
         e.ret = self.ret
         e.done = self.done
+        e.arrays = self.arrays
         return e
 
 
@@ -544,6 +546,32 @@ class Interp:
             return BV([t_ite(ct, x, y) for x, y in zip(a.bits, b.bits)], a.signed)
         if k == "call":
             return self.call(n, env, depth)
+        if k == "subscript":
+            b = strip_all_casts(n["base"])
+            if b.get("k") == "ref" and b.get("decl") in env.arrays:
+                tab = env.arrays[b["decl"]]
+                idx = self.ev(n["idx"], env, depth)
+                iv = idx.value()
+                if iv is not None:
+                    if not 0 <= iv < len(tab):
+                        raise Unsupported("constant index %d outside the %d-element table" % (iv, len(tab)))
+                    return tab[iv]
+                # symbolic index: a multiplexer over the table; an index the table does not have reads foreign memory — outside the vocabulary
+                live = [j for j, bt in enumerate(idx.bits) if bt != C0]
+                if len(live) > 8 or (1 << (max(live) + 1 if live else 0)) > len(tab) or (idx.signed and idx.bits[-1] != C0):
+                    raise Unsupported("table of %d elements indexed by a value that is not confined to it" % len(tab))
+                w0 = tab[0].w
+                res = BV.const(0, w0, tab[0].signed)
+                for j, el in enumerate(tab):
+                    if j >= (1 << (max(live) + 1 if live else 0)):
+                        break
+                    hit = C1
+                    for bpos in live:
+                        bit = idx.bits[bpos]
+                        hit = t_and(hit, bit if (j >> bpos) & 1 else t_not(bit))
+                    res = BV([t_ite(hit, x, y) for x, y in zip(el.bits, res.bits)], tab[0].signed)
+                return res
+            raise Unsupported("subscript of something that is not a local constant table")
         if k == "sizeof":
             raise Unsupported("sizeof without constant value")
         if k == "initlist" and len(n.get("inits", [])) == 1 and (t or {}).get("k") in ("int", "enum", "bool", "float"):
@@ -789,6 +817,17 @@ class Interp:
             for v in s["vars"]:
                 if "other" in v:
                     continue
+                if (v.get("t") or {}).get("k") == "array" and isinstance(v.get("init"), dict) and strip(v["init"]).get("k") == "initlist":
+                    # a local table of constants (e.g. a DLC-to-length table): kept element by element, read by `subscript`
+                    elems = [self.ev(x, env, depth) for x in strip(v["init"]).get("inits", [])]
+                    n = (v["t"] or {}).get("n") or len(elems)
+                    if elems and len(elems) < n:
+                        elems += [BV.const(0, elems[0].w, elems[0].signed)] * (n - len(elems))
+                    if not elems or any(e.value() is None for e in elems):
+                        raise Unsupported("local array %s is not a table of constants" % v.get("name"))
+                    env.arrays = dict(env.arrays)
+                    env.arrays[v["decl"]] = elems
+                    continue
                 if isinstance(v.get("init"), dict):
                     val = self.ev(v["init"], env, depth)
                     w, sg = type_width(v["t"])
@@ -816,10 +855,71 @@ class Interp:
             env.done = C1
         elif k == "null":
             pass
-        elif k in ("while", "for", "do", "rangefor", "switch", "try"):
+        elif k == "switch":
+            self.switch(s, env, depth)
+        elif k == "break":
+            raise Unsupported("break outside the top level of a switch section")
+        elif k in ("while", "for", "do", "rangefor", "try"):
             raise Unsupported("statement kind %s" % k)
         else:
             self.ev(s, env, depth)
+
+    def switch(self, s, env, depth):
+        """switch over a value with constant case labels: every entry point (a run of labels) is executed on a fork of the state from
+        its first statement to the next top-level `break` (fall-through included); the forks are merged by the label conditions."""
+        for key in ("init", "condvar"):
+            if isinstance(s.get(key), dict):
+                self.block(s[key], env, depth)
+        c = self.ev(s["cond"], env, depth)
+        body = s.get("body") or {}
+        items = body.get("body", []) if body.get("k") == "compound" else [body]
+        flat = []  # (labels of this statement, statement)
+        for it in items:
+            labels = []
+            while isinstance(it, dict) and it.get("k") in ("case", "default"):
+                if it["k"] == "case":
+                    v = const_value(it["value"])
+                    if v is None:
+                        raise Unsupported("case label without constant value")
+                    labels.append(v)
+                else:
+                    labels.append("default")
+                it = it.get("sub")
+            flat.append((labels, it))
+        if flat and not flat[0][0]:
+            raise Unsupported("statement before the first case label")
+        all_cases = [v for ls, _ in flat for v in ls if v != "default"]
+
+        def is_value(v):
+            return self.binop("==", c, BV.const(v, c.w, c.signed), None).bits[0]
+        entries = []
+        for i, (ls, _) in enumerate(flat):
+            if not ls:
+                continue
+            cond = C0
+            for v in ls:
+                if v == "default":
+                    d = C1
+                    for w in all_cases:
+                        d = t_and(d, t_not(is_value(w)))
+                    cond = t_or(cond, d)
+                else:
+                    cond = t_or(cond, is_value(v))
+            e2 = env.fork()
+            for _, st in flat[i:]:
+                if isinstance(st, dict) and st.get("k") == "break":
+                    break
+                if isinstance(st, dict):
+                    self.block(st, e2, depth)
+                if e2.returned:
+                    break
+            entries.append((cond, e2))
+        base = env.fork()  # no label matches and there is no default: the switch does nothing
+        for cond, e2 in reversed(entries):
+            tmp = env.fork()
+            self.join(tmp, cond, e2, base)
+            base = tmp
+        env.storage, env.vars, env.done, env.ret = base.storage, base.vars, base.done, base.ret
 
     # ---------------------------------------------------------------- entry points
     def run(self, fn, rec_size_bytes, params, storage=None, objs=None):
